@@ -197,6 +197,10 @@ type replayFile struct {
 	Sub      string          `json:"sub,omitempty"`
 	Case     json.RawMessage `json:"case"`
 	Msg      string          `json:"msg,omitempty"`
+	// History: the cases the failing process had executed before, in order. Set by the driver when the case
+	// alone does not fail in a fresh process: the code under test may keep state across requests of different
+	// cases (a process-wide cache, say); replaying the history first puts that state back.
+	History []json.RawMessage `json:"history,omitempty"`
 }
 
 func writeReplay(path, id, sub string, c any, msg string) {
@@ -208,6 +212,10 @@ func writeReplay(path, id, sub string, c any, msg string) {
 
 func journalPath(id string) string {
 	return filepath.Join(outDir, fmt.Sprintf("journal-%s-%s-%d.json", id, unit, shard))
+}
+
+func histPath(id string) string {
+	return filepath.Join(outDir, fmt.Sprintf("hist-%s-%s-%d.jsonl", id, unit, shard))
 }
 
 func failPath(id string) string {
@@ -244,10 +252,23 @@ func runProp[C any](t *testing.T, ev *Ev, sub string, journal bool, gen func(*ra
 		}
 		ev.write()
 	}()
+	var hist *os.File
+	if journal {
+		_ = os.MkdirAll(outDir, 0o755)
+		hist, _ = os.OpenFile(histPath(id), os.O_CREATE|os.O_WRONLY|os.O_APPEND, 0o644)
+		if hist != nil {
+			defer hist.Close()
+		}
+	}
 	rapid.Check(t, func(rt *rapid.T) {
 		c := gen(rt)
 		if journal {
 			writeReplay(journalPath(id), id, sub, c, "journal")
+			if hist != nil {
+				if cb, err := json.Marshal(c); err == nil {
+					_, _ = hist.Write(append(cb, '\n'))
+				}
+			}
 		}
 		err := func() (err error) {
 			defer func() {
@@ -294,6 +315,12 @@ func TestReplay(t *testing.T) {
 	f, ok := replayers[rf.Property+"/"+rf.Sub]
 	if !ok {
 		t.Fatalf("INFRA: no replayer for %s/%s", rf.Property, rf.Sub)
+	}
+	for _, h := range rf.History {
+		func() {
+			defer func() { _ = recover() }()
+			_ = f(h) // whatever it says: only the state it leaves behind matters
+		}()
 	}
 	if err := f(rf.Case); err != nil {
 		t.Fatalf("REPLAY-FAIL %s/%s: %v", rf.Property, rf.Sub, err)
